@@ -224,7 +224,7 @@ func TestVerifC15(t *testing.T) {
 		{Name: "lists/noop", Norm: "noop", U2E: map[string][]string{"alice": {"alice@example.org"}}},
 	}
 	users := []string{"alice", "ALICE", "alice@example.org", "Alice@EXAMPLE.org", "bob", "root", "mallory@evil.example", "", "renée@пример.рф", nfd("renée") + "@xn--e1afmkfd.xn--p1ai"}
-	addrs := []string{"alice@example.org", "ALICE@Example.ORG", "alias@example.org", "shared@example.org", "bob@example.org", "mallory@evil.example", "renée@пример.рф", nfd("renée") + "@XN--E1AFMKFD.XN--P1AI", "other@example.org"}
+	addrs := []string{"alice@example.org", "ALICE@Example.ORG", "alias@example.org", "shared@example.org", "bob@example.org", "mallory@evil.example", "renée@пример.рф", nfd("renée") + "@XN--E1AFMKFD.XN--P1AI", "other@example.org", "alice@notexample.org"}
 	layouts := func(a, b string) []string {
 		return []string{
 			"From: <" + a + ">\r\n",
